@@ -261,6 +261,16 @@ func (conn *Tunnel) requestTunnel(data cemi.Message) error {
 	if conn.config.UseTCP {
 		// In TCP mode there are no acknowledegments at the KNXnet/IP level. Hence we skip the tail of
 		// this function given we don't require dealing with resending and other failure scenarios.
+		// The only thing to report is that the connection server has terminated (it closes the
+		// acknowledgement channel when it does): the gateway will not forward this request.
+		select {
+		case _, open := <-conn.ack:
+			if !open {
+				return errors.New("connection server has terminated")
+			}
+		default:
+		}
+
 		return nil
 	}
 
